@@ -203,6 +203,97 @@ func c05Sessions(faultSide string) vs.Verdict {
 	return f.verdict(fmt.Sprintf("version=%s closer=%s faults=%s call=%v %s handlerRan=%v", version, closer, faultSide, withCall, callRes, st1 >= 0))
 }
 
+// c05Nested: Close while a call is in flight whose handler on the peer is itself waiting for this
+// side to answer a nested request (a tool that asks the client to sample).  Every user handler
+// returns as soon as what it waits for returns, so the proviso of C05 holds: Close and both Waits
+// must return, whoever closes and whenever the nested handler finishes.
+func c05Nested() vs.Verdict {
+	f := &e1Fail{prefix: "c05b nested"}
+	ctx := context.Background()
+	closers := []string{"client", "server", "both"}
+	closer := closers[vs.Choose("closer", 3, 0)]
+	ctl := vs.NewController()
+	gate := ctl.Gate("sampling-handler")
+	vs.Quiet(true)
+	s := NewServer(&Implementation{Name: "srv", Version: "1"}, &ServerOptions{Logger: quietLogger})
+	AddTool(s, &Tool{Name: "ask"}, func(ctx context.Context, r *CallToolRequest, in map[string]any) (*CallToolResult, any, error) {
+		vs.Event("start tool")
+		_, err := r.Session.CreateMessage(ctx, &CreateMessageParams{MaxTokens: 1, Messages: []*SamplingMessage{{Role: "user", Content: &TextContent{Text: "?"}}}})
+		vs.Event("finish tool (nested call: %v)", err != nil)
+		return &CallToolResult{}, nil, nil
+	})
+	c := NewClient(&Implementation{Name: "cli", Version: "1"}, &ClientOptions{Logger: quietLogger,
+		CreateMessageHandler: func(context.Context, *CreateMessageRequest) (*CreateMessageResult, error) {
+			vs.Event("start sampling")
+			gate.Wait() // finishes when everything else has come to rest (Close is then already waiting)
+			vs.Event("finish sampling")
+			return &CreateMessageResult{Model: "m", Role: "assistant", Content: &TextContent{Text: "!"}}, nil
+		}})
+	ct, st := NewInMemoryTransports()
+	ss, err := s.Connect(ctx, st, nil)
+	if err != nil {
+		return vs.Verdict{Bad: "server connect: " + err.Error(), Sig: "c05b connect-failed"}
+	}
+	cs, err := c.Connect(ctx, ct, &ClientSessionOptions{ProtocolVersion: "2025-06-18"})
+	if err != nil {
+		return vs.Verdict{Bad: "client connect: " + err.Error(), Sig: "c05b connect-failed"}
+	}
+	done := make(chan string, 8)
+	vs.Go(func() {
+		_, err := cs.CallTool(ctx, &CallToolParams{Name: "ask", Arguments: map[string]any{}})
+		if err != nil {
+			done <- "call:err"
+		} else {
+			done <- "call:ok"
+		}
+	})
+	vs.WaitIdle() // the nested request has reached the client's handler
+	vs.Quiet(false)
+	n := 1
+	if closer == "client" || closer == "both" {
+		n++
+		vs.Go(func() {
+			vs.Point()
+			cs.Close()
+			vs.Event("client-close-returned")
+			done <- "cclose"
+		})
+	}
+	if closer == "server" || closer == "both" {
+		n++
+		vs.Go(func() {
+			vs.Point()
+			ss.Close()
+			vs.Event("server-close-returned")
+			done <- "sclose"
+		})
+	}
+	n += 2
+	vs.Go(func() { ss.Wait(); done <- "swait" })
+	vs.Go(func() { cs.Wait(); done <- "cwait" })
+	callRes := ""
+	for i := 0; i < n; i++ {
+		r := <-done
+		if strings.HasPrefix(r, "call:") {
+			callRes = r
+		}
+	}
+	cs.Close()
+	ss.Close()
+	ctl.Stop()
+	evs := vs.Events()
+	if evIndex(evs, "start sampling") < 0 {
+		f.failf("harness", "the nested request never reached the client's handler: %s", evJoin(evs))
+	}
+	if evIndex(evs, "finish sampling") < 0 {
+		f.failf("handler-abandoned", "the sampling handler started but never finished: %s", evJoin(evs))
+	}
+	if left := slices.Collect(s.Sessions()); len(left) != 0 {
+		f.failf("server-session-not-removed", "after shutdown the server still lists %d session(s)", len(left))
+	}
+	return f.verdict(fmt.Sprintf("closer=%s %s", closer, callRes))
+}
+
 // c05StreamableClose: a streamable HTTP session is closed (DELETE or ServerSession.Close) while a
 // POST carrying more calls than the session's incoming queue holds is being handed to it.  Every
 // HTTP exchange must end, Close must return, and nothing may be left running.
@@ -323,6 +414,7 @@ func TestVerifC05(t *testing.T) {
 		vs.E1(t, "b/sessions", b, vs.Options{}, func() vs.Verdict { return c05Sessions("") }),
 		vs.E1(t, "b/sessions-client-writes-fail", b, vs.Options{}, func() vs.Verdict { return c05Sessions("client") }),
 		vs.E1(t, "b/sessions-server-writes-fail", b, vs.Options{}, func() vs.Verdict { return c05Sessions("server") }),
+		vs.E1(t, "b/nested-request-in-flight", env.Pick(1, 2), vs.Options{}, func() vs.Verdict { return c05Nested() }),
 		vs.E1(t, "b/streamable-close-vs-posts", env.Pick(1, 2), vs.Options{}, func() vs.Verdict { return c05StreamableClose() }),
 	}
 	env.Run(scs)
